@@ -1260,6 +1260,25 @@ fn query<'t, P: Program<'t>>(p: &P, label: Value, is_any: bool, model: Option<Mo
     }
 }
 
+/// Rooted and unrooted members for combinators of combinators.
+const ROOT_MIX_POOL: &[&str] = &["/a", "/b/**", "/**/x", "/*", "/", "c", "d/*", "**/e", "*.f", "</g:1,>", "{h,i}/j", "/{k,l}"];
+
+/// Splits `n` members into two or more consecutive non-empty groups.
+fn random_groups(rng: &mut Rng, n: usize) -> Vec<usize> {
+    if n < 2 {
+        return vec![n];
+    }
+    let mut sizes = Vec::new();
+    let mut left = n;
+    while left > 0 {
+        let max = if sizes.is_empty() { left - 1 } else { left };
+        let k = rng.range(1, max.min(3));
+        sizes.push(k);
+        left -= k;
+    }
+    sizes
+}
+
 /// Syntactic triggers of the listed C09 findings on the reference parse.
 pub fn c09_key(ast: Option<&Ast>) -> Option<&'static str> {
     let ast = ast?;
@@ -1963,7 +1982,7 @@ impl Monitor for GroupA {
                 level: "exploration",
                 rule: "depth() of every glob and any() combinator is compared with the component count of every matched canonical candidate path (relative for unrooted, rooted for rooted patterns); candidate paths include shallow- and deep-biased derivations of the compiled regex. distinct_nontrivial = distinct patterns with matches at two different depths, or any match under a bounded verdict.",
                 assumptions: &["component count = number of non-empty '/'-separated names"],
-                floors: &["depth:invariant", "depth:bounded", "depth:open", "pattern:any"],
+                floors: &["depth:invariant", "depth:bounded", "depth:open", "pattern:any", "pattern:any(any)"],
             },
             "C11" => Meta {
                 id: "C11",
@@ -1971,7 +1990,7 @@ impl Monitor for GroupA {
                 level: "exploration",
                 rule: "for every pattern reporting invariant text t: t must match (unless a class lists a separator) and no other candidate (regex derivations, mutations of t, per-character case variants from the folding tables) may match. distinct_nontrivial = distinct invariant patterns with at least one other path evaluated.",
                 assumptions: &["case variants drawn from std and regex folding tables"],
-                floors: &["text:invariant", "text:variant", "pattern:any"],
+                floors: &["text:invariant", "text:variant", "pattern:any", "pattern:any(any)"],
             },
             "C12" => Meta {
                 id: "C12",
@@ -1979,7 +1998,7 @@ impl Monitor for GroupA {
                 level: "exploration",
                 rule: "has_root()=Always patterns are matched against all candidate paths (every match must start with '/'); globs must never report Sometimes; has_semantic_literals() is compared with the reference parse (a clearly delimited component spelled '.' or '..' at any depth). distinct_nontrivial = distinct always-rooted patterns with a match, plus distinct expressions with a semantic component.",
                 assumptions: &["reference parse for component structure"],
-                floors: &["root:glob:always", "root:glob:never", "root:any:sometimes", "semantic:expected-true", "semantic:expected-unknown-or-false"],
+                floors: &["pattern:any(any)", "root:glob:always", "root:glob:never", "root:any:sometimes", "semantic:expected-true", "semantic:expected-unknown-or-false"],
             },
             _ => Meta {
                 id: "C19",
@@ -2081,18 +2100,49 @@ impl Monitor for GroupA {
                 if rng.chance(1, 3) && guarded(|| Glob::new(&other2).is_ok()) == Some(true) {
                     exprs.push(&other2);
                 }
-                let mut combos: Vec<Vec<&str>> = Vec::new();
+                // (members, sizes of the consecutive groups of a nested combinator; empty = flat)
+                let mut combos: Vec<(Vec<&str>, Vec<usize>)> = Vec::new();
                 if exprs.len() > 1 || rng.chance(1, 4) {
-                    combos.push(exprs);
+                    let groups = if rng.chance(1, 3) { random_groups(&mut rng, exprs.len()) } else { Vec::new() };
+                    combos.push((exprs, groups));
+                }
+                if rng.chance(1, 3) {
+                    // A combinator of combinators mixing rooted and unrooted members in a random
+                    // order (the documented idiom for mixing compiled and textual patterns).
+                    let mut members: Vec<&str> = vec![case.expr];
+                    for _ in 0..rng.range(2, 4) {
+                        members.push(rng.pick_str(ROOT_MIX_POOL));
+                    }
+                    rng.shuffle(&mut members);
+                    let groups = random_groups(&mut rng, members.len());
+                    combos.push((members, groups));
                 }
                 for pinned in case::PINNED_ANY {
                     if pinned[0] == case.expr {
-                        combos.push(pinned.to_vec());
+                        combos.push((pinned.to_vec(), Vec::new()));
                     }
                 }
-                for exprs in combos {
-                    if let Some(any) = guarded(|| wax::any(exprs.iter().copied()).ok()).flatten() {
+                for (exprs, groups) in combos {
+                    let built = if groups.is_empty() {
+                        guarded(|| wax::any(exprs.iter().copied()).ok()).flatten()
+                    }
+                    else {
+                        guarded(|| {
+                            let mut inner = Vec::new();
+                            let mut at = 0;
+                            for n in groups.iter() {
+                                inner.push(wax::any(exprs[at..at + n].iter().copied()).ok()?);
+                                at += n;
+                            }
+                            wax::any(inner).ok()
+                        })
+                        .flatten()
+                    };
+                    if let Some(any) = built {
                         rpt.bucket("pattern:any");
+                        if !groups.is_empty() {
+                            rpt.bucket("pattern:any(any)");
+                        }
                         let mut paths = case.paths.clone();
                         for e in exprs.iter().skip(1) {
                             if let Ok(g) = Glob::new(e) {
@@ -2111,7 +2161,7 @@ impl Monitor for GroupA {
                                 }
                             }
                         }
-                        let q = query(&any, json!({"any": exprs}), true, model_of(&exprs), &exprs);
+                        let q = query(&any, json!({"any": exprs, "nested_group_sizes": groups}), true, model_of(&exprs), &exprs);
                         let is_match = |p: &str| guarded(|| any.is_match(p));
                         let lists_sep_any = true; // unknown for the other patterns: do not demand self-match
                         match self.id {
